@@ -144,6 +144,10 @@ func TestIsLocalhost(t *testing.T) {
 		{"0:0:0:0:0:0:0:0", true},
 		{"::ffff:0.0.0.0", true},
 		{"::ffff:127.0.0.1", true},
+		{"::1%lo", true},
+		{"::%eth0", true},
+		{"::ffff:127.0.0.1%lo", true},
+		{"fe80::1%eth0", false},
 
 		{"::10", false},
 		{"2001:0db8:85a3:0000:0000:8a2e:0370:7334", false},
